@@ -4,6 +4,7 @@ package main
 
 import (
 	"fmt"
+	"os"
 	"sort"
 	"strconv"
 	"strings"
@@ -44,6 +45,9 @@ func (w *watchedCounter) Sample(ele string) {
 }
 
 func c05Run(f []string) string {
+	if f[0] == "atrace" {
+		return aggTraceRun(f)
+	}
 	if f[0] != "agg" {
 		return "bad-op"
 	}
@@ -135,6 +139,9 @@ func c05Run(f []string) string {
 var c05Renders int
 
 func c05Gen(r *Rand, tier string) []string {
+	if os.Getenv("VERIF_C05_ONLY") == "trace" { // stress runs of the trace tie alone
+		return aggTraceGen(r, tier)
+	}
 	n := 14
 	if tier == "thorough" {
 		n = 150
@@ -170,7 +177,7 @@ func c05Gen(r *Rand, tier string) []string {
 		script := fmt.Sprintf("%d:n,0:n:%d", len(data)+1, Pick(r, []int{103, 108, 115, 125}))
 		out = append(out, fmt.Sprintf("agg %s %d %d %d %s %d %d", HexList([][]byte{data}), Pick(r, []int{1, 2}), 1, 1, script, 0, Pick(r, []int{50, 70})))
 	}
-	return out
+	return append(out, aggTraceGen(r, tier)...)
 }
 
 func genLinesSmallKeys(r *Rand, n int) []byte {
@@ -187,6 +194,10 @@ func c05Stats(cases []string) map[string]int {
 	st := map[string]int{"renders.total": c05Renders}
 	for _, c := range cases {
 		f := strings.Fields(c)
+		if f[0] == "atrace" {
+			traceStats(st, c)
+			continue
+		}
 		st["workers."+f[2]]++
 		if strings.Contains(f[5], ":n:") {
 			st["slowReader"]++
